@@ -84,7 +84,7 @@ func (info ReportingMTAInfo) WriteTo(utf8 bool, w io.Writer) error {
 		}
 
 		if utf8 {
-			h.Add("X-Maddy-Sender", "utf8; "+sender)
+			h.Add("X-Maddy-Sender", "utf-8; "+sender)
 		} else {
 			h.Add("X-Maddy-Sender", "rfc822; "+sender)
 		}
@@ -137,7 +137,7 @@ func (info RecipientInfo) WriteTo(utf8 bool, w io.Writer) error {
 		return fmt.Errorf("dsn: cannot convert Final-Recipient to a suitable representation: %w", err)
 	}
 	if utf8 {
-		h.Add("Final-Recipient", "utf8; "+finalRcpt)
+		h.Add("Final-Recipient", "utf-8; "+finalRcpt)
 	} else {
 		h.Add("Final-Recipient", "rfc822; "+finalRcpt)
 	}
